@@ -1191,6 +1191,10 @@ theorem forward_reference (t : Tab) (c : Ctx) (x : String) (hx : x ≠ "$") (hl 
 /-- every case of `compile` that compiles a function body enters it through `enterFunc` (regenerated) -/
 theorem bodies_enter_through_enterFunc : Gen.enterFuncCases = ["function", "init", "lambda", "method"] := by decide
 
+/-- `enterFunc` has the shape the model assumes: it records the name and, for a name compiled before, deletes
+    exactly the keys `<name>.<identifier>` (the extractor compares the body statement by statement) -/
+theorem enterFunc_has_model_shape : Gen.enterFuncDrops = true := by decide
+
 example : Goat.Resolve.resolve (Goat.Resolve.step (Goat.Resolve.run Goat.Resolve.hist) (.compile "main.f" []))
     { fn := "main.f", inScope := true, locals := ["acc"] } "acc" = .localGet "acc" := by decide
 
@@ -1215,3 +1219,4 @@ end Goat.Props.C08
 #print axioms Goat.Props.C08.package_beats_builtin
 #print axioms Goat.Props.C08.forward_reference
 #print axioms Goat.Props.C08.bodies_enter_through_enterFunc
+#print axioms Goat.Props.C08.enterFunc_has_model_shape
